@@ -290,6 +290,74 @@ pub fn gen_history_member(prog: &Prog, rng: &mut Rng) -> Vec<Op> {
     ops
 }
 
+/// C18 through the model: adds one morphism that closes a directed cycle (a back edge along an
+/// existing morphism, or a self-loop). close() must then panic with the runtime's cycle report,
+/// and must not panic otherwise.
+pub fn inject_cycle(prog: &Prog, ops: &mut Vec<Op>, rng: &mut Rng) -> bool {
+    let mi = prog.model.as_ref().expect("model program");
+    let n_mor = ops.iter().filter(|o| matches!(o, Op::NewEl { sort } if *sort == mi.mor_sort)).count() as u32;
+    // morphisms with both ends asserted
+    let mut ends: BTreeMap<u32, (Option<u32>, Option<u32>)> = BTreeMap::new();
+    for o in ops.iter() {
+        if let Op::Insert { rel, args } = o {
+            if *rel == mi.dom_rel {
+                ends.entry(args[0]).or_default().0 = Some(args[1]);
+            } else if *rel == mi.cod_rel {
+                ends.entry(args[0]).or_default().1 = Some(args[1]);
+            }
+        }
+    }
+    let full: Vec<(u32, u32)> = ends.values().filter_map(|(d, c)| Some(((*d)?, (*c)?))).collect();
+    if full.is_empty() || n_mor == 0 {
+        return false;
+    }
+    let (a, b) = *rng.pick(&full);
+    let (from, to) = if rng.chance(1, 4) { (a, a) } else { (b, a) };
+    // the new morphism is created right after the last creation op, so that every id stays what it was
+    let last_new = ops.iter().rposition(|o| matches!(o, Op::NewEl { .. } | Op::NewMember { .. })).unwrap_or(0);
+    ops.insert(last_new + 1, Op::NewEl { sort: mi.mor_sort });
+    let lo = last_new + 2;
+    let hi = ops.len() - 1; // before the final close
+    let p1 = rng.range(lo as u64, hi as u64) as usize;
+    ops.insert(p1, Op::Insert { rel: mi.dom_rel, args: vec![n_mor, from] });
+    let p2 = rng.range(lo as u64, (hi + 1) as u64) as usize;
+    ops.insert(p2, Op::Insert { rel: mi.cod_rel, args: vec![n_mor, to] });
+    true
+}
+
+/// Directed cycle among the morphisms with both ends defined, read from a (canonical) structure.
+fn structure_has_cycle(prog: &Prog, st: &Structure) -> bool {
+    let mi = prog.model.as_ref().unwrap();
+    let dom: BTreeMap<u32, u32> = st.tables[mi.dom_rel].iter().map(|t| st.canon_tuple(mi.dom_rel, t)).map(|t| (t[0], t[1])).collect();
+    let cod: BTreeMap<u32, u32> = st.tables[mi.cod_rel].iter().map(|t| st.canon_tuple(mi.cod_rel, t)).map(|t| (t[0], t[1])).collect();
+    let mut succ: BTreeMap<u32, Vec<u32>> = BTreeMap::new();
+    for (f, d) in &dom {
+        if let Some(c) = cod.get(f) {
+            succ.entry(*d).or_default().push(*c);
+        }
+    }
+    fn visit(n: u32, succ: &BTreeMap<u32, Vec<u32>>, colour: &mut BTreeMap<u32, u8>) -> bool {
+        match colour.get(&n).copied().unwrap_or(0) {
+            1 => return true,
+            2 => return false,
+            _ => {}
+        }
+        colour.insert(n, 1);
+        if let Some(ss) = succ.get(&n) {
+            for s in ss {
+                if visit(*s, succ, colour) {
+                    return true;
+                }
+            }
+        }
+        colour.insert(n, 2);
+        false
+    }
+    let mut colour = BTreeMap::new();
+    let nodes: Vec<u32> = succ.keys().copied().collect();
+    nodes.into_iter().any(|n| visit(n, &succ, &mut colour))
+}
+
 /// Does the history let structure (dom / cod, or the constants they are derived from) arrive
 /// after a member fact has had a chance to age? That is the shape the known finding needs.
 pub fn late_structure(prog: &Prog, ops: &[Op]) -> bool {
@@ -533,7 +601,53 @@ pub fn run_c17(prog: &Prog, ops: &[Op], want_c18: bool) -> Result<RunInfo, Fail>
             }
         };
         let classes_before = structural_classes(m.as_ref());
-        let (res, args) = apply_op(prog, m.as_mut(), op, &on_poll);
+        let (res, args) = if want_c18 && matches!(op, Op::Close | Op::CloseUntil { .. }) {
+            // a cycle among the morphisms makes close() panic by design (the generated code
+            // `expect`s the runtime's Ok): that is how the model reports it
+            match std::panic::catch_unwind(std::panic::AssertUnwindSafe(|| apply_op(prog, m.as_mut(), op, &on_poll))) {
+                Ok(x) => x,
+                Err(payload) => {
+                    let msg = panic_message(&payload);
+                    if !msg.contains("cycle") {
+                        return Err(("panic".into(), format!("the generated model panicked: {msg}")));
+                    }
+                    // the report is right iff the facts asserted so far, closed under the rules,
+                    // contain a directed cycle of morphisms with both ends defined
+                    let mut reference = asserted.clone();
+                    match chase(p, &prog.paths, &mut reference, 150, 60) {
+                        Ok(_) => {}
+                        Err(ChaseError::Diverged) => {
+                            info.budget_hit = true;
+                            return Ok(info);
+                        }
+                        Err(ChaseError::Uninterpretable(e)) => return Err(("harness".into(), format!("reference cannot interpret the program: {e}"))),
+                    }
+                    if !structure_has_cycle(prog, &reference) {
+                        return Err((
+                            "spurious-cycle".into(),
+                            format!("op {i}: close() reported a cycle ({msg}) but the morphisms of the closed reference model are acyclic"),
+                        ));
+                    }
+                    info.checks = *topo_checked.borrow() + 1;
+                    info.enum_elements_checked = *topo_checked.borrow();
+                    info.c17_mapped_rows = 1; // "a cycle was reported and was real"
+                    info.final_fingerprint = simcore::fnv_str(&format!("cycle-reported-at-op-{i}"));
+                    return Ok(info);
+                }
+            }
+        } else {
+            apply_op(prog, m.as_mut(), op, &on_poll)
+        };
+        if want_c18 && matches!(op, Op::Close | Op::CloseUntil { .. }) {
+            // close returned: the morphisms it just ordered cannot contain a cycle
+            let (_, cyclic) = toposort_reference(prog, m.as_ref());
+            if cyclic {
+                return Err((
+                    "missed-cycle".into(),
+                    format!("op {i}: close returned although the morphisms with both ends defined contain a directed cycle"),
+                ));
+            }
+        }
         if matches!(op, Op::Close | Op::CloseUntil { .. }) && structural_classes(m.as_ref()) < classes_before {
             derived_merge.set(true);
         }
